@@ -123,6 +123,17 @@ class History(object):
                 self.diffs.append({"call": label, "after_failure": list(canon_outcome(o)), "fresh_twin": list(canon_outcome(t))})
         return o, t
 
+    def again(self, chk, first, f, tf, extra=None, bad=None, label="", replay=None):
+        """The failing call once more on the same walker: it must fail the same way, and the way
+        a single attempt on the (so far untouched) twin fails.  Call it after the probes."""
+        o, _ = self.do(f, tf, extra=extra, bad=bad, twin_too=False, label=label + " (second attempt)")
+        self.inj.target = None
+        single = first if bad is not None else outcome(lambda: self.call(self.twin, self.tw, tf, extra))
+        if canon_outcome(o) != canon_outcome(first) or canon_outcome(o) != canon_outcome(single):
+            chk.violation(dict(replay or {}, kind="history", what="%s: a call that failed does not fail the same way when it is attempted again on the same "
+                               "environment (%s)" % (self.name, label), first_attempt=list(canon_outcome(first)), second_attempt=list(canon_outcome(o)),
+                               fresh_environment_single_attempt=list(canon_outcome(single))), key="second-attempt:%s:%s" % (self.name, label.split(" ")[0]))
+
     def coq(self):
         return walktap.coq_case(self.table, self.early, self.oneshot, self.walks)
 
@@ -182,15 +193,18 @@ def run_injected(chk, rnd, spec, rows, stats):
             stats["fault_not_reached"] += 1
             continue
         at_root = (nodes[idx] is g)
+        # the fault is transient: the second attempt comes while it is still there, before the fault-free probes
+        h.again(chk, o, g, tg, extra=maps[-1], bad=bad, label="injected fault",
+                replay={"walker": name, "recipe": rows, "repro": "harness.c15.replay_injected(%r, %r, %d, %d)" % (name, rows, gi, idx)})
         for j, p in enumerate(probes):
             tp = tnodes[nodes.index(p)]
             for mp in maps:
                 h.do(p, tp, extra=mp, label="probe %d (%s)" % (j, "root" if p is g else "sub-term"))
         stats["probe_calls"] += len(h.walks) - 1
         chk.count((name, tuple(map(str, rows[-3:])), kid))
-        rows_out.append(h.coq())
         replay = {"walker": name, "recipe": rows, "root_row": gi, "fault_at_row": idx,
                   "repro": "harness.c15.replay_injected(%r, %r, %d, %d)" % (name, rows, gi, idx)}
+        rows_out.append(h.coq())
         meta.append(replay)
         if h.diffs:
             stats["histories_with_trace"] += 1
@@ -250,6 +264,7 @@ def run_unsupported_operator(chk, rnd, spec, rows, stats):
     stats["probe_calls"] += len(probes)
     chk.count((name, "unsupported", tuple(map(str, rows[-3:]))))
     replay = {"walker": name, "recipe": rows, "repro": "harness.c15.replay_unsupported(%r, %r)" % (name, rows)}
+    h.again(chk, o, top, ttop, label="unsupported operator", replay=replay)
     if h.diffs:
         stats["histories_with_trace"] += 1
         chk.violation(dict(replay, kind="history", what="after %s raised %s on And(g, Or(b1, <custom node>)), later calls on well-formed formulas "
@@ -291,6 +306,7 @@ def run_ill_typed_substitution(chk, rnd, rows, stats):
     chk.count(("ill-typed-subst", tuple(map(str, rows[-3:])), a, b))
     replay = {"recipe": rows, "root_row": gi, "map_rows": [a, b],
               "repro": "harness.c15.replay_subst(%r, %d, %d, %d)" % (rows, gi, a, b)}
+    h.again(chk, o, g, tg, extra=bad_map, label="ill-typed substitution", replay=replay)
     if h.diffs:
         stats["histories_with_trace"] += 1
         chk.violation(dict(replay, kind="history", what="after env.substituter.substitute(g, {%s: %s}) raised %s, later substitutions on the same "
@@ -300,29 +316,66 @@ def run_ill_typed_substitution(chk, rnd, rows, stats):
     return [h.coq()], [replay]
 
 
-def run_ill_typed_construction(chk, rnd, rows, stats):
-    """An ill-typed application is rejected at creation; afterwards the environment answers as
-    the twin does (the node table keeps the rejected node: not observable through results)."""
-    from pysmt.environment import Environment
-    env, twin = Environment(), Environment()
-    nodes, tnodes = walkgen.build(env, rows), walkgen.build(twin, rows)
-    m = env.formula_manager
+def bad_constructions(env, nodes, rows):
+    """Catalogue of constructions that must be rejected: ill-typed applications (pysmt type
+    errors), typing rules that die with a non-pysmt exception, and a node of a type the type
+    checker does not know.  Each entry is (label, thunk)."""
+    from pysmt.typing import INT
+    m, tm = env.formula_manager, env.type_manager
     b0 = [n for n, r in zip(nodes, rows) if r[0] == "sym" and r[2] == "bool"][0]
     i0 = [n for n, r in zip(nodes, rows) if r[0] == "sym" and r[2] == "int"][0]
     v0 = [n for n, r in zip(nodes, rows) if r[0] == "sym" and r[2] == "bv"][0]
     g = walkgen.last_of_sort(env, nodes)
-    bads = [lambda: m.And(i0, b0), lambda: m.Plus(i0, b0), lambda: m.Ite(i0, b0, b0), lambda: m.BVAdd(v0, i0),
-            lambda: m.LT(v0, i0), lambda: m.Not(m.Plus(i0, i0)), lambda: m.And(g, m.Or(b0, i0)), lambda: m.Equals(i0, v0)]
-    bad = rnd.choice(bads)
-    o = outcome(bad)
-    stats["failing_calls"] += 1
-    if o[0] != "raise":
-        chk.violation({"kind": "input", "what": "ill-typed construction accepted", "recipe": rows}, key="illtyped-accepted")
-        return
+    NT = custom_node_type()
+    arr = m.Symbol("arr0", tm.ArrayType(INT, INT))
+    return [
+        ("And(i, b)", lambda: m.And(i0, b0)), ("Plus(i, b)", lambda: m.Plus(i0, b0)), ("Ite(i, b, b)", lambda: m.Ite(i0, b0, b0)),
+        ("BVAdd(v, i)", lambda: m.BVAdd(v0, i0)), ("LT(v, i)", lambda: m.LT(v0, i0)), ("Not(Plus(i, i))", lambda: m.Not(m.Plus(i0, i0))),
+        ("And(g, Or(b, i))", lambda: m.And(g, m.Or(b0, i0))), ("Equals(i, v)", lambda: m.Equals(i0, v0)),
+        ("Ite(b, i, v)", lambda: m.Ite(b0, i0, v0)), ("Iff(i, i)", lambda: m.Iff(i0, i0)), ("ToReal(b)", lambda: m.ToReal(b0)),
+        # typing rules that raise something else than a pysmt type error
+        ("BVULT(i, i)", lambda: m.BVULT(i0, i0)), ("BVULE(i, b)", lambda: m.BVULE(i0, b0)), ("BVSLT(i, i)", lambda: m.BVSLT(i0, i0)),
+        ("BVSLE(b, b)", lambda: m.BVSLE(b0, b0)), ("BVComp(i, i)", lambda: m.BVComp(i0, i0)), ("Select(i, i)", lambda: m.Select(i0, i0)),
+        ("Store(b, i, i)", lambda: m.Store(b0, i0, i0)), ("Select(arr, b)", lambda: m.Select(arr, b0)), ("StrLength(i)", lambda: m.StrLength(i0)),
+        ("BVToNatural(i)", lambda: m.BVToNatural(i0)), ("Function(i, [i])", lambda: m.Function(i0, [i0])),
+        ("BVConcat(v, i)", lambda: m.BVConcat(v0, i0)), ("BVExtract(i, 0, 1)", lambda: m.BVExtract(i0, 0, 1)), ("BVZExt(i, 2)", lambda: m.BVZExt(i0, 2)),
+        ("BVNot(b)", lambda: m.BVNot(b0)), ("BVNeg(i)", lambda: m.BVNeg(i0)), ("Pow(b, b)", lambda: m.Pow(b0, b0)), ("Div(v, v)", lambda: m.Div(v0, v0)),
+        # a node type without any type-checker function: raw create_node, as an extension would call it
+        ("create_node(<custom type>, (b, b))", lambda: m.create_node(node_type=NT, args=(b0, b0))),
+        ("create_node(<custom type>, (g,))", lambda: m.create_node(node_type=NT, args=(g,))),
+    ]
+
+
+def run_ill_typed_construction(chk, rnd, rows, stats):
+    """A rejected construction leaves no trace: the SAME construction attempted again on the same
+    environment fails the same way (as the single attempt on a fresh environment does), and
+    afterwards the environment answers as the twin does."""
+    from pysmt.environment import Environment
+    env, twin = Environment(), Environment()
+    nodes, tnodes = walkgen.build(env, rows), walkgen.build(twin, rows)
+    g = walkgen.last_of_sort(env, nodes)
     diffs = []
-    o2 = outcome(bad)
-    if o2 != o:
-        diffs.append({"call": "same ill-typed construction again", "first": list(o), "second": list(o2)})
+    cat = bad_constructions(env, nodes, rows)
+    for k, (label, bad) in enumerate(cat):
+        first = outcome(bad)
+        stats["failing_calls"] += 1
+        if first[0] != "raise":
+            stats["fault_not_reached"] += 1        # accepted: C03's business, not a failing call
+            continue
+        second = outcome(bad)
+        third = outcome(bad)
+        fresh = Environment()
+        single = outcome(bad_constructions(fresh, walkgen.build(fresh, rows), rows)[k][1])
+        stats["probe_calls"] += 3
+        chk.count(("construction-twice", label))
+        for nth, o in (("second", second), ("third", third)):
+            if canon_outcome(o) != canon_outcome(first) or canon_outcome(o) != canon_outcome(single):
+                chk.violation({"kind": "history", "what": "a construction that was rejected is not rejected the same way when it is attempted again on the same "
+                               "environment: %s" % label, "history": ["%s  -> %s" % (label, first[1]), "%s again (%s attempt) -> %s" % (label, nth, canon_outcome(o)[1][:200] if o[0] == "ok" else o[1])],
+                               "first_attempt": list(canon_outcome(first)), "%s_attempt" % nth: list(canon_outcome(o)), "fresh_environment_single_attempt": list(canon_outcome(single)),
+                               "recipe": rows, "repro": "harness.c15.replay_construction(%r, %d)" % (rows, k)},
+                              key="construction:second-attempt:%s" % label)
+                break
     gi = nodes.index(g)
     for label, fn in [("simplify", lambda e, n: e.simplifier.simplify(n[gi])),
                       ("get_type", lambda e, n: str(e.stc.get_type(n[gi]))),
@@ -339,8 +392,20 @@ def run_ill_typed_construction(chk, rnd, rows, stats):
     chk.count(("ill-typed-construction", tuple(map(str, rows[-3:]))))
     if diffs:
         stats["histories_with_trace"] += 1
-        chk.violation({"kind": "history", "what": "after an ill-typed construction was rejected, later calls differ from the twin", "recipe": rows,
+        chk.violation({"kind": "history", "what": "after rejected constructions, later calls differ from the twin", "recipe": rows,
                        "differences": diffs[:4]}, key="construction:trace-after-type-error")
+
+
+def replay_construction(rows, k):
+    warnings.simplefilter("ignore")
+    from pysmt.environment import Environment
+    env = Environment()
+    label, bad = bad_constructions(env, walkgen.build(env, rows), rows)[k]
+    a, b = outcome(bad), outcome(bad)
+    fresh = Environment()
+    c = outcome(bad_constructions(fresh, walkgen.build(fresh, rows), rows)[k][1])
+    print(label, "first:", canon_outcome(a), "second:", canon_outcome(b), "fresh single:", canon_outcome(c))
+    return 0 if canon_outcome(a) == canon_outcome(b) == canon_outcome(c) else 1
 
 
 GOOD_SCRIPTS = [
@@ -383,6 +448,12 @@ def run_parser(chk, rnd, stats):
                 continue
             seq = [good] + [GOOD_SCRIPTS[(gi + 1) % len(GOOD_SCRIPTS)]]
             diffs = []
+            o2 = outcome(lambda: parse(p, bad))
+            stats["probe_calls"] += 1
+            if o2 != o:
+                chk.violation({"kind": "history", "what": "a script that failed (%s) does not fail the same way when it is parsed again by the same parser" % label,
+                               "failing_script": bad, "first_attempt": list(o), "second_attempt": [o2[0], str(o2[1])[:300]]},
+                              key="second-attempt:parser:%s" % label)
             for s in seq:
                 a = outcome(lambda: parse(p, s))
                 b = outcome(lambda: parse(tp, s))
